@@ -79,8 +79,9 @@ theorem mirror_deviates_from_spec :
 /-! ## Writer / reader ordinal agreement -/
 
 /-- Every module a writer has put in the file, after ANY history of buffered writes, page flushes
-    (from full buffers, `Flush`, `Close`), row-group flushes (empty ones included), commits of row
-    groups made by `BeginRowGroup`, and `Reset`s, was sealed with the AAD arguments of the slot it
+    (from full buffers, `Flush`, `Close`), row-group flushes (empty ones included), rows and page
+    flushes on row groups made by `BeginRowGroup`, their Commits interleaved with the writer's own
+    row groups, their reuse after Commit, and `Reset`s, was sealed with the AAD arguments of the slot it
     occupies in the file. -/
 theorem writer_ordinals_agree (cfg : WCfg) (ops : List WOp) :
     ∀ e ∈ wclose cfg (wrun cfg ops), e.used = e.slot.used :=
@@ -90,7 +91,7 @@ theorem writer_ordinals_agree (cfg : WCfg) (ops : List WOp) :
 example :
     let cfg : WCfg := { ncols := 1, dict := fun _ => false, bloom := fun _ => false, plainFooter := false }
     (⟨.dataPage 0 0 0, ⟨.dataPage, [0, 0, 0]⟩⟩ : Ev) ∈ wclose cfg (wrun cfg [.page 0, .flush [], .reset, .page 0]) ∧
-    (⟨.dataPage 1 0 1, ⟨.dataPage, [1, 0, 1]⟩⟩ : Ev) ∈ wclose cfg (wrun cfg [.page 0, .commit [0] [0, 0]]) := by decide
+    (⟨.dataPage 1 0 1, ⟨.dataPage, [1, 0, 1]⟩⟩ : Ev) ∈ wclose cfg (wrun cfg [.page 0, .cwrite 7, .commit 7 [0] [0, 0]]) := by decide
 
 /-- The writer model is not vacuous: this history really produces sealed pages in two row groups. -/
 example :
@@ -98,6 +99,27 @@ example :
     (⟨.dataPage 1 0 0, ⟨.dataPage, [1, 0, 0]⟩⟩ : Ev) ∈ wclose cfg (wrun cfg [.page 0, .page 1, .flush [0], .flush [], .page 0, .page 1]) ∧
     (⟨.dataPage 0 0 1, ⟨.dataPage, [0, 0, 1]⟩⟩ : Ev) ∈ wclose cfg (wrun cfg [.page 0, .page 1, .flush [0], .flush [], .page 0, .page 1]) ∧
     (wclose cfg (wrun cfg [.page 0, .page 1, .flush [0], .flush [], .page 0, .page 1])).length = 31 := by decide
+
+/-- non-vacuity of the interleaving: the writer's own rows, a row group of `BeginRowGroup` whose
+    flushes before Commit are no-ops, its Commit, the SAME row group reused and committed again
+    after another one, and rows of the writer itself after that: five row groups, every page
+    sealed for the row group it lands in -/
+example :
+    let cfg : WCfg := { ncols := 1, dict := fun _ => false, bloom := fun _ => false, plainFooter := false }
+    let ops : List WOp := [.write, .page 0, .cwrite 3, .cpage 3 0, .commit 3 [0] [0], .cwrite 4, .commit 4 [] [0],
+                           .cwrite 3, .cpage 3 0, .page 0, .commit 3 [0] [0, 0], .page 0]
+    ((wclose cfg (wrun cfg ops)).filter (fun e => e.slot.type == .dataPage)).map (·.slot) =
+      [.dataPage 0 0 0, .dataPage 0 0 1, .dataPage 1 0 0, .dataPage 2 0 0, .dataPage 3 0 0, .dataPage 3 0 1,
+       .dataPage 4 0 0, .dataPage 4 0 1, .dataPage 5 0 0] := by decide
+
+/-- REGRESSION FACT on the mirror of the code BEFORE the writer's own row group was given the next
+    ordinal after a Commit: `w.Write`; `rg.WriteRows`; `rg.Commit()` (row groups 0 and 1); a page
+    of the writer itself spilling before Close was sealed as row group 1 and stored in row group 2. -/
+theorem commit_leaves_stale_main_ordinal_before_fix :
+    let cfg : WCfg := { ncols := 1, dict := fun _ => false, bloom := fun _ => false, plainFooter := false }
+    (⟨.dataPage 2 0 0, ⟨.dataPage, [1, 0, 0]⟩⟩ : Ev) ∈
+      wclose cfg (wrunBeforeCommitFix cfg [.write, .cwrite 0, .commit 0 [0] [0], .page 0]) := by
+  decide
 
 /-- REGRESSION FACT on the mirror of the code BEFORE the repair of `writer.reset`: after
     `Writer.Reset` the column writers kept the row-group ordinal of the previous file. A page
